@@ -34,7 +34,7 @@ Fixpoint nodes_of (c : ctx) (fp : list trait) (gts : list (N * option (list (lis
       if t_suppress tr then nodes_of c fp gts rest
       else
         let rv := c_render c (ftype_of c f (t_ftype tr)) v in
-        if t_group tr && has_group_count v then
+        if t_group tr && has_group_count_c c f v then
           match map_find f gts, nodes_of c fp gts rest with
           | Some (Some els), Some ns => Some (TN k f rv els :: ns)
           | _, _ => None
